@@ -34,7 +34,31 @@ var lockTable = []lockRow{
 // lockExempt: function → reason. Exemptions are per named symbol.
 var lockExempt = map[string]string{}
 
+// mutexName resolves the name of the mutex field of a struct: the tabled name if the field exists, otherwise the
+// single field of a sync mutex type (so that renaming an unexported mutex does not unhook the rules).
+func (c *Ctx) mutexName(pkg, typ, tabled string) string {
+	if c.FieldOpt(pkg, typ, tabled) != nil {
+		return tabled
+	}
+	st := structOf(c.Named(pkg, typ))
+	var found []string
+	for i := 0; st != nil && i < st.NumFields(); i++ {
+		switch st.Field(i).Type().String() {
+		case "sync.Mutex", "sync.RWMutex", "*sync.Mutex", "*sync.RWMutex":
+			found = append(found, st.Field(i).Name())
+		}
+	}
+	if len(found) == 1 {
+		return found[0]
+	}
+	return tabled
+}
+
+// reloadMu is the path suffix of the reload lock of the database handler.
+func (c *Ctx) reloadMu() string { return "." + c.mutexName("dnsserver", "FBDNSDB", "reloadMu") }
+
 func (c *Ctx) guardSpec(r lockRow) *GuardSpec {
+	r.Mutex = c.mutexName(r.Pkg, r.Type, r.Mutex)
 	if r.OuterField != "" {
 		return &GuardSpec{Name: r.Type + "." + r.OuterField + "." + r.Field, Field: c.Field(r.Pkg, r.InnerType, r.Field), Outer: c.Field(r.Pkg, r.Type, r.OuterField), Mutex: r.Mutex}
 	}
